@@ -28,21 +28,22 @@ KNOWN_SPEC = {"version": [], "well": [["TIME", "", ["s", "12:30"], "start time"]
               "curves": [["DEPT", "M", ["s", ""], "", [(1.0).hex(), (2.0).hex(), (3.0).hex()]]], "other": ""}
 
 
-def gen_cfg(rng, p):
+def gen_cfg(rng, p, conv="f"):
     w = rng.choice([None, 12, 14])
-    fmt = "%%.%df" % p if w is None else "%%%d.%df" % (w, p)
+    fmt = "%%.%d%s" % (p, conv) if w is None else "%%%d.%d%s" % (w, p, conv)
     cfg = dict(version=rng.choice([1.2, 2]), wrap=rng.choice([True, False]), fmt=fmt,
                len_numeric_field=rng.choice([None, None, -1, 16, 22]), lhs_spacer=rng.choice([" ", "", "  "]),
-               spacer=rng.choice([" ", "  ", "   "]), data_width=rng.choice([79, 40, 120, 200]),
+               spacer=rng.choice([" ", "  ", "   "]), data_width=rng.choice([79, 40, 120, 200, 24, 30]),
                mnemonics_header=rng.choice([False, False, True]), data_section_header=rng.choice(["~ASCII", "~A", "~Ascii Log Data"]))
     if rng.random() < 0.25:
-        cfg["column_fmt"] = {0: "%%%d.%df" % (rng.choice([9, 13]), p)}
+        cfg["column_fmt"] = {0: "%%%d.%d%s" % (rng.choice([9, 13]), p, conv)}
     return cfg
 
 
 def gen_pair(rng):
     p = rng.choice([2, 4, 5])
-    a, b = gen_cfg(rng, p), gen_cfg(rng, p)
+    conv = "e" if rng.random() < 0.12 else "f"       # exponent notation: tokens such as 1.20000e-05 (equal precision on both sides)
+    a, b = gen_cfg(rng, p, conv), gen_cfg(rng, p, conv)
     r = rng.random()
     if r < 0.35:                    # pure version swap
         b = dict(a)
@@ -238,6 +239,13 @@ def run(run):
     # genuine defect found by this check (reported): ~Version DLM other than SPACE is written as it is while the data is
     # blank-separated; the wrapped output is then split at the declared delimiter
     run_spec(run, KNOWN_DLM_SPEC, dict(base, version=2, wrap=False), dict(base, version=2, wrap=True), "dlm-input", pend)
+    # a DLM COMMA / TAB object written unwrapped, once with blanks and once with its own delimiter between the columns: both
+    # outputs are read back alike (the blanks are found by the sniffer / the fast engine, the delimiter by the declared splitter)
+    for dlm, sp in (("COMMA", ","), ("COMMA", " , "), ("TAB", "\t")):
+        spec = dict(KNOWN_DLM_SPEC, version_edit={"DLM": ["", ["s", dlm], "Column Data Section Delimiter"]})
+        for lnf in (None, -1):
+            run_spec(run, spec, dict(base, version=2, len_numeric_field=lnf), dict(base, version=2, spacer=sp, lhs_spacer="", len_numeric_field=lnf),
+                     "dlm-own-spacer", pend)
     # generated objects
     for i in range(run.budget(1500, 30000)):
         spec = lo.gen_spec(run.rng, ncurves=run.rng.choice([1, 2, 3, 5, 9]))
